@@ -411,6 +411,11 @@ fn oracle(esc: bool, p: &str, text: &str, seen: &Seen) -> String {
     if any_sub != seen.m[1] || !prefixes.is_empty() != seen.m[2] || !suffixes.is_empty() != seen.m[3] {
         return "FAIL:unanchored/half-anchored is_match".into();
     }
+    // Multi-character collating elements are outside the defined notation (the POSIX locale has none):
+    // which of `a` / `ab` a bracket takes first is unspecified, so extremality is not judged for them.
+    if toks.iter().any(|t| matches!(t, Tok::Set { seqs, .. } if !seqs.is_empty())) {
+        return "ok".into();
+    }
     // find / rfind of the four trim configurations
     let want: [Option<std::ops::Range<usize>>; 4] = [
         prefixes.first().map(|&k| 0..off[k]),
